@@ -280,6 +280,7 @@ Qed.
 Lemma user_create_pres used lvL lvR g w sd n d :
   Inv g w -> NoTmp w -> Dom used lvL lvR g w -> name_ok n = true -> name_mem n used = false ->
   exists g', Inv g' (user_op w sd (UCreate [n] d)) /\ NoTmp (user_op w sd (UCreate [n] d)) /\
+     (forall k, g_get k (g_of g' (negb sd)) = g_get k (g_of g (negb sd))) /\
      Dom (n :: used) (if sd then lvL else ([n], [d]) :: lvL) (if sd then ([n], [d]) :: lvR else lvR) g' (user_op w sd (UCreate [n] d)).
 Proof.
   intros I T D Hnok Hnew.
@@ -351,7 +352,7 @@ Proof.
     destruct (Bool.bool_dec sd0 sd) as [->|Hne].
     + assert (k0 <> kt) by (unfold kt, p; lia). split; [apply Hobj; assumption|]. split; [apply Hpdm|apply Hgt; assumption].
     + rewrite (other_side _ _ Hne). split; [apply Hobjo|]. split; [apply Hpdm|apply Hgo].
-  - exists g'. split; [exact I'|]. split; [intros x sd0; unfold getx, w'; rewrite x_with_prov; apply (T x sd0)|].
+  - exists g'. split; [exact I'|]. split; [intros x sd0; unfold getx, w'; rewrite x_with_prov; apply (T x sd0)|]. split; [exact Hgo|].
     constructor.
     + intros sd0 rel cs Hl. destruct (Bool.bool_dec sd0 sd) as [->|Hne].
       * assert (Hl': live_get rel (([n], [d]) :: (if sd then lvR else lvL)) = Some cs) by (destruct sd; exact Hl).
@@ -453,6 +454,7 @@ Lemma user_write_pres used lvL lvR g w (sd : bool) rel d cs :
   Inv g w -> NoTmp w -> Dom used lvL lvR g w ->
   live_get rel (if sd then lvR else lvL) = Some cs -> n_mem d cs = false ->
   exists g', Inv g' (user_op w sd (UWrite rel d)) /\ NoTmp (user_op w sd (UWrite rel d)) /\
+    (forall k, g_get k (g_of g' (negb sd)) = g_get k (g_of g (negb sd))) /\
     Dom used (if sd then lvL else (rel, d :: cs) :: live_del rel lvL) (if sd then (rel, d :: cs) :: live_del rel lvR else lvR)
         g' (user_op w sd (UWrite rel d)).
 Proof.
@@ -466,6 +468,7 @@ Proof.
   destruct (user_touch_pres g w sd n k ob cs ob' (d :: cs) p' ProvModel.EvUpdate I T Hob Hl Hp Hg HW' Hheap Hlog Hcur) as (I' & T');
     [reflexivity|reflexivity|reflexivity|exists cs; reflexivity|right; split; [apply n_mem_false; exact Hfresh|reflexivity]|].
   exists g'. split; [exact I'|]. split; [exact T'|].
+  split; [intros; unfold g'; rewrite g_of_with_other; reflexivity|].
   set (w' := with_prov w sd p').
   assert (Hlt: (k < length (ProvModel.p_heap (prov_of w sd)))%nat) by (apply nth_error_Some; unfold obj_at in Hob; congruence).
   assert (Hobt: obj_at w' sd k = Some ob') by (unfold obj_at, w'; rewrite prov_with_same, Hheap; apply nth_hset_same; exact Hlt).
@@ -503,6 +506,7 @@ Lemma user_delete_pres used lvL lvR g w (sd : bool) rel cs :
   Inv g w -> NoTmp w -> Dom used lvL lvR g w ->
   live_get rel (if sd then lvR else lvL) = Some cs ->
   exists g', Inv g' (user_op w sd (UDelete rel)) /\ NoTmp (user_op w sd (UDelete rel)) /\
+    (forall k, g_get k (g_of g' (negb sd)) = g_get k (g_of g (negb sd))) /\
     Dom used (if sd then lvL else live_del rel lvL) (if sd then live_del rel lvR else lvR) g' (user_op w sd (UDelete rel)).
 Proof.
   intros I T D Hlive.
@@ -516,6 +520,7 @@ Proof.
   destruct (user_touch_pres g w sd n k ob cs ob' cs p' ProvModel.EvDelete I T Hob Hl Hp Hg HW' Hheap Hlog Hcur) as (I' & T');
     [reflexivity|reflexivity|reflexivity|exists r; exact Hcsr|left; split; reflexivity|].
   exists g'. split; [exact I'|]. split; [exact T'|].
+  split; [intros; unfold g'; rewrite g_of_with_other; reflexivity|].
   set (w' := with_prov w sd p').
   assert (Hlt: (k < length (ProvModel.p_heap (prov_of w sd)))%nat) by (apply nth_error_Some; unfold obj_at in Hob; congruence).
   assert (Hobt: obj_at w' sd k = Some ob') by (unfold obj_at, w'; rewrite prov_with_same, Hheap; apply nth_hset_same; exact Hlt).
@@ -578,23 +583,23 @@ Proof.
       destruct o as [rel d|rel d|rel|rel rel2|rel].
       * destruct sd; simpl in HF; apply andb_prop in HF as [Hnl HF]; destruct (new_leaf_1 _ _ Hnl) as (n & -> & Hnok & Hnew);
           change (leaf [n]) with n in HF.
-        -- destruct (user_create_pres used lvL lvR g w true n d I T D Hnok Hnew) as (g1 & I1 & T1 & D1).
+        -- destruct (user_create_pres used lvL lvR g w true n d I T D Hnok Hnew) as (g1 & I1 & T1 & _ & D1).
            apply (IH _ _ _ g1 _ w' I1 T1 D1 HF H).
-        -- destruct (user_create_pres used lvL lvR g w false n d I T D Hnok Hnew) as (g1 & I1 & T1 & D1).
+        -- destruct (user_create_pres used lvL lvR g w false n d I T D Hnok Hnew) as (g1 & I1 & T1 & _ & D1).
            apply (IH _ _ _ g1 _ w' I1 T1 D1 HF H).
       * destruct sd; simpl in HF.
         -- destruct (live_get rel lvR) as [cs|] eqn:El; [|discriminate]. apply andb_prop in HF as [Hf HF]. apply negb_true_iff in Hf.
-           destruct (user_write_pres used lvL lvR g w true rel d cs I T D El Hf) as (g1 & I1 & T1 & D1).
+           destruct (user_write_pres used lvL lvR g w true rel d cs I T D El Hf) as (g1 & I1 & T1 & _ & D1).
            apply (IH _ _ _ g1 _ w' I1 T1 D1 HF H).
         -- destruct (live_get rel lvL) as [cs|] eqn:El; [|discriminate]. apply andb_prop in HF as [Hf HF]. apply negb_true_iff in Hf.
-           destruct (user_write_pres used lvL lvR g w false rel d cs I T D El Hf) as (g1 & I1 & T1 & D1).
+           destruct (user_write_pres used lvL lvR g w false rel d cs I T D El Hf) as (g1 & I1 & T1 & _ & D1).
            apply (IH _ _ _ g1 _ w' I1 T1 D1 HF H).
       * destruct sd; simpl in HF.
         -- destruct (live_get rel lvR) as [cs|] eqn:El; [|discriminate].
-           destruct (user_delete_pres used lvL lvR g w true rel cs I T D El) as (g1 & I1 & T1 & D1).
+           destruct (user_delete_pres used lvL lvR g w true rel cs I T D El) as (g1 & I1 & T1 & _ & D1).
            apply (IH _ _ _ g1 _ w' I1 T1 D1 HF H).
         -- destruct (live_get rel lvL) as [cs|] eqn:El; [|discriminate].
-           destruct (user_delete_pres used lvL lvR g w false rel cs I T D El) as (g1 & I1 & T1 & D1).
+           destruct (user_delete_pres used lvL lvR g w false rel cs I T D El) as (g1 & I1 & T1 & _ & D1).
            apply (IH _ _ _ g1 _ w' I1 T1 D1 HF H).
       * simpl in HF. discriminate.
       * simpl in HF. discriminate.
